@@ -541,7 +541,7 @@ def run_check(prop: str, tier: str, replay: str | None) -> int:
     if prop == "C02":
         from . import check_policy
         check_policy.run(ck, tier)
-    if prop in ("C01", "C02", "C16"):
+    if prop in ("C01", "C02", "C16", "C15"):
         from . import check_backpressure
         check_backpressure.run(ck, prop, tier)
     if prop == "C07":
